@@ -9,6 +9,8 @@ mod util;
 mod gearref;
 mod merkleref;
 mod intern;
+mod httpd;
+mod xorbenc;
 
 fn main() {
     let args: Vec<String> = std::env::args().collect();
@@ -21,6 +23,11 @@ fn main() {
         "singleflight" => drivers::singleflight::run(&a),
         "chunkcache" => drivers::chunkcache::run(&a),
         "upload" => drivers::upload::run(&a),
+        "xorb" => drivers::xorb::run(&a),
+        "chunker" => drivers::chunker::run(&a),
+        "merkle" => drivers::merkle::run(&a),
+        "shard" => drivers::shard::run(&a),
+        "reconstruct" => drivers::reconstruct::run(&a),
         other => {
             eprintln!("unknown driver {other}");
             std::process::exit(2);
